@@ -4,7 +4,7 @@ operation family (modelled or not): crash / misaligned or outside reference (C01
 (C02), hang / stack exhaustion / absurd item counts (C03)."""
 import re
 from .props import Prop, klass, REGISTRY
-from . import gen_walk
+from . import gen_walk, gen_pure
 
 
 def _sample(gen, limit_quick, limit_thorough):
@@ -20,7 +20,7 @@ def _sample(gen, limit_quick, limit_thorough):
 
 
 class Cross(Prop):
-    own_gens = [gen_walk.gen_walk_corpus, gen_walk.gen_walk_corrupt, gen_walk.gen_walk_generated, gen_walk.gen_align_stress]
+    own_gens = [gen_walk.gen_walk_corpus, gen_walk.gen_walk_corrupt, gen_walk.gen_walk_generated, gen_walk.gen_align_stress, gen_pure.gen_fmt_cstr]
 
     @property
     def gens(self):
@@ -83,7 +83,16 @@ class C02(Cross):
 class C03(Cross):
     pid = "C03"
     title = "termination"
-    thm_modules = ["PeliteModel.Thm.C03"]
+    thm_modules = ["PeliteModel.Thm.C03", "PeliteModel.Thm.C03Fmt"]
+
+    def judge(self, op, impl, model, spec):
+        r = Cross.judge(self, op, impl, model, spec)
+        if r:
+            return r
+        # the formatter model is compared exactly (its loops are what C03 is about)
+        if op.startswith("fmt_cstr ") and impl != model:
+            return {"kind": "model", "text": "impl=%s model=%s" % (impl[:300], model[:300]), "hyp": "1"}
+        return None
 
     def bad(self, op, impl):
         k = klass(impl)
